@@ -293,7 +293,7 @@ func c15(e *Env) {
 	e.tableModelProblems(func(t *facts.Table) bool { return t.IsData() })
 	c.Floor("pure-query", 250)
 	c.Floor("table-immutability", 120)
-	c.Floor("determinism", 50)
+	c.Floor("determinism", 12)
 	c.Floor("constructor-fresh", 10)
 	c.Floor("package-vars", 130)
 }
